@@ -28,7 +28,6 @@ import (
 	"context"
 	"encoding/json"
 	"fmt"
-	"os"
 	"sort"
 	"strings"
 	"testing"
@@ -675,9 +674,7 @@ func TestProp(t *testing.T) {
 	defer run.Finish(t, rec)
 	run.Witnesses(rec, prop, replay)
 
-	if os.Getenv("C15_NOENUM") == "" {
-		enumerate(t, run.Pick([]int{4, 3}, []int{5, 5}))
-	}
+	enumerate(t, run.Pick([]int{4, 3}, []int{5, 5}))
 	run.Rapid(t, rec, "history", genCase, classify, check)
 }
 
